@@ -38,6 +38,18 @@ CHECKS = {
  'C12': ('proof', 'PARTIAL: 2e4 (quick) mutated TZif inputs under ASan+UBSan with timeout, outcome and answers equal to the model incl. its UB flags, two loads agree. Memory safety of the C++ itself is the ASan run. Known findings F4b, F8, F9.',
          'executable Lean model with UB/fuel flags + sanitizer-instrumented mutation correspondence', '§6 C12'),
  'C14': ('proof', 'PARTIAL: every hint state x probe panel vs a history-free copy; reload hits the cache without consulting the data source; theorems as listed in the evidence.', 'executable Lean model with explicit hints + correspondence', '§6 C14'),
+ 'C07': ('proof', 'PARTIAL: format -> parse round trip evaluated on the implementation for generated lossless formats x all int64 instants x femtoseconds, both calls tied to the Format/Parse models; theorems as listed in the evidence. Known finding F10 (offset of exactly +-24h).',
+         'executable Lean model (strftime/strptime as parameters) + correspondence + property oracle', '§6 C07'),
+ 'C08': ('proof', 'PARTIAL: format() vs the Format model (cursor loop, Format64, FormatOffset, ToTM; strftime runs evaluated with the real strftime under the buffer cap) and vs the documented renderings written independently; malformed strings under ASan+UBSan; theorems as listed in the evidence.',
+         'executable Lean model + correspondence + independent rendering oracle', '§6 C08'),
+ 'C09': ('proof', 'PARTIAL: parse() vs the Parse model (specifier loop, ParseInt/ParseOffset/ParseSubSeconds, FromWeek, range and overflow checks; strptime answered by the real C library) and vs the instant the fields denote (independent zone oracle); theorems as listed in the evidence.',
+         'executable Lean model + correspondence + independent oracle', '§6 C09'),
+ 'C13': ('proof', 'PARTIAL: loader state machine (critical-section granularity) tied to the real code by exhaustive start/release schedules of k<=3 (4) threads held inside a blocking factory; sequential-result oracle; ThreadSanitizer runs up to 64 threads with single-threaded replay. Data-race freedom in the C++ memory model is the TSan run, not a theorem.',
+         'Lean state-machine model + exhaustive schedule correspondence + ThreadSanitizer', '§6 C13'),
+ 'C19': ('proof', 'PARTIAL: name resolution model (path construction, TZ/LOCALTIME handling, fixed names, UTC fallback) tied to the real code over the product of environment settings and name kinds, file system as a parameter; theorems as listed in the evidence.',
+         'Lean decision-logic model + correspondence over environment product', '§6 C19'),
+ 'C20': ('proof', 'PARTIAL: factory log (thread, name, concurrency) of the real code vs the loader state machine over all schedules; contract clauses checked; known finding F3 (racing first loads call the factory once per thread, concurrently).',
+         'Lean state-machine model + exhaustive schedule correspondence', '§6 C20'),
 }
 
 def main():
